@@ -36,11 +36,13 @@ def render_scope(K, O, i):
     """Source text (statement) that introduces scope i (0-based) and everything nested in it."""
     k, occ = K[i], set(O[i])
     inner = render_scope(K, O, i + 1) if i + 1 < 3 and K[i + 1] != 'none' else ''
+    hdr = '*, k=v' if 'H' in occ else ''
+    occ = occ - {'H'}
     if k == 'function':
-        params = 'v' if 'P' in occ else ''
+        params = ', '.join(x for x in ('v' if 'P' in occ else '', hdr) if x)
         return 'def s%d(%s):\n%s' % (i + 1, params, _ind(fun_body(occ - {'P'}, inner), 1))
     if k == 'lambda':
-        params = 'v' if 'P' in occ else ''
+        params = ', '.join(x for x in ('v' if 'P' in occ else '', hdr) if x)
         body = ['v' if 'U' in occ else '0']
         if inner:
             body.append(inner[len('_l%d = ' % (i + 2)):] if inner.startswith('_l') else '0')
@@ -59,7 +61,7 @@ def render_scope(K, O, i):
             lines.append('(v)')
         if inner:
             lines.append(inner)
-        return 'class s%d:\n%s' % (i + 1, _ind('\n'.join(lines) or 'pass', 1))
+        return 'class s%d%s:\n%s' % (i + 1, '(kw=v)' if hdr else '', _ind('\n'.join(lines) or 'pass', 1))
     if k == 'comprehension':
         return '_c%d = [%s for %s in %s]' % (i + 1, 'v' if 'U' in occ else '0', 'v' if 'T' in occ else '_i', 'v' if 'I' in occ else '()')
     raise common.MachineryError('bad scope kind %r' % k)
